@@ -1031,4 +1031,137 @@ def feeds (shortcuts : List ShortcutRow) (ctors : List CtorRow) (m cls p : Strin
         ((((call.2.filter (fun a => a.1 == "")).map (·.2)).zip names).find? (fun q => q.2 == p)).map (·.1)
   | _, _ => none
 
+/-! # Phase 6 — pipelines of several filters: `FiltersFilter.filter` / `SourceFilters.read`
+(`for f in self._filters: items = f.filter(items)`), the flattening of nested `Pipes.join`s in their
+constructors (`sum((try_else(lambda: list(p),[p]) for p in pipes),[])`), and the filter of every kind
+as ONE datatype `FOp`, so that a theorem can quantify over every pipeline of C09 filters. -/
+
+/-- one pipeline run: the result of each filter is handed to the next; the first exception ends it -/
+def chainF {α : Type} : List (List α → Except Err (List α)) → List α → Except Err (List α)
+  | [], xs => .ok xs
+  | f :: fs, xs =>
+    match f xs with
+    | .ok ys => chainF fs ys
+    | .error e => .error e
+
+/-- what is handed to `Pipes.join`: a filter object, or a pipe that was itself built by `Pipes.join` -/
+inductive Pipe (α : Type) where
+  | one (f : List α → Except Err (List α))
+  | joined (ps : List (Pipe α))
+
+mutual
+/-- `_filters` of the joined pipe: the constructor splices the filter lists of already joined arguments -/
+def Pipe.filters {α : Type} : Pipe α → List (List α → Except Err (List α))
+  | .one f => [f]
+  | .joined ps => Pipe.filtersL ps
+def Pipe.filtersL {α : Type} : List (Pipe α) → List (List α → Except Err (List α))
+  | [] => []
+  | p :: ps => p.filters ++ Pipe.filtersL ps
+end
+
+/-- the code: run the flat list -/
+def Pipe.runFlat {α : Type} (p : Pipe α) (xs : List α) : Except Err (List α) := chainF p.filters xs
+
+mutual
+/-- the meaning of a nested join (spec): every argument is applied as a unit, left to right -/
+def Pipe.run {α : Type} : Pipe α → List α → Except Err (List α)
+  | .one f, xs => f xs
+  | .joined ps, xs => Pipe.runL ps xs
+def Pipe.runL {α : Type} : List (Pipe α) → List α → Except Err (List α)
+  | [], xs => .ok xs
+  | p :: ps, xs =>
+    match p.run xs with
+    | .ok ys => Pipe.runL ps ys
+    | .error e => .error e
+end
+
+/-- the attributes of an interaction the filters read -/
+structure Acc (α : Type) where
+  isLogged : α → Bool
+  hasCtx : α → Bool
+  ctx : α → Ctx
+  nAct : α → Nat
+
+/-- a C09 filter with its parameters -/
+inductive FOp where
+  | take (count : Option Nat) (strict : Bool)
+  | slice (start stop : Option Nat) (step : Nat)
+  | pshuffle (sd : Seed)
+  | eshuffle (sd lsd : Seed)
+  | riffle (spacing : Nat) (sd : Seed)
+  | sort (keys : List Val)
+  | whereOp (nInt nAct nFet : Range)
+  | reservoir (count : Option Nat) (strict : Bool) (sd : Seed)
+  | identity
+
+/-- the modelled filter function of an `FOp` (`nT` = number of uniform triples the reservoir loop may use) -/
+def FOp.run {R α : Type} (ops : FloatOps R) (A : Acc α) (nT : Nat) : FOp → List α → Except Err (List α)
+  | .take c strict, xs => .ok (Coba.C09.take c strict xs)
+  | .slice a b st, xs => .ok (Coba.C09.slice a b st xs)
+  | .pshuffle sd, xs => .ok (shuffleSeeded sd xs)
+  | .eshuffle sd lsd, xs => .ok (eShuffleSeeded A.isLogged sd lsd xs)
+  | .riffle sp sd, xs => .ok (riffleSeeded sp sd xs)
+  | .sort keys, xs => sortF A.hasCtx A.ctx keys xs
+  | .whereOp ni na nf, xs => .ok (whereF (fun a => ctxLen (A.ctx a)) A.nAct ni na nf xs)
+  | .reservoir c strict sd, xs => reservoirF ops c strict sd.norm (xs.length + nT) xs
+  | .identity, xs => .ok (identityF xs)
+
+/-- a pipeline of C09 filters -/
+def pipeline {R α : Type} (ops : FloatOps R) (A : Acc α) (nT : Nat) (fs : List FOp) : List α → Except Err (List α) :=
+  chainF (fs.map (FOp.run ops A nT))
+
+/-- the filter keeps no interaction it was not given and never reorders (Take, Slice, Where, Identity) -/
+def FOp.selecting : FOp → Bool
+  | .take _ _ | .slice _ _ _ | .whereOp _ _ _ | .identity => true
+  | _ => false
+
+/-- the filter only rearranges (Shuffle, Riffle, Sort, Identity) -/
+def FOp.ordering : FOp → Bool
+  | .pshuffle _ | .eshuffle _ _ | .riffle _ _ | .sort _ | .identity => true
+  | _ => false
+
+/-! ## Phase 6: the statements of the pipeline-running methods, as extracted programs (`PLine`, with `for` lines:
+`(depth, "for", loop variable, iterated expression)` followed by the body one level deeper) and an interpreter -/
+
+/-- `FiltersFilter.__init__` / `SourceFilters.__init__`: the splice of already joined arguments (meaning: `Pipe.filtersL`) -/
+def joinInitProgram (target : String) : List PLine :=
+  [(0, "assign", target, "sum((try_else(lambda: list(p), [p]) for p in pipes), [])")]
+
+def filtersFilterProgram : List PLine := [
+  (0, "for", "filter", "self._filters"),
+  (1, "assign", "items", "filter.filter(items)"),
+  (0, "return", "items", "")]
+
+def sourceReadProgram : List PLine := [
+  (0, "assign", "item", "self._pipes[0].read()"),
+  (0, "for", "filter", "self._pipes[1:]"),
+  (1, "assign", "item", "filter.filter(item)"),
+  (0, "return", "item", "")]
+
+/-- `Environments.filter`: one pipeline per (environment, filter) pair, environments outermost (meaning: `productMembers`) -/
+def envFilterProgram : List PLine := [
+  (0, "assign", "filters", "filter if isinstance(filter, collections.abc.Sequence) else [filter]"),
+  (0, "return", "Environments([Pipes.join(env, f) for env in self._envs for f in filters])", "")]
+
+/-- which filters a loop of such a method walks: all of a `FiltersFilter`, everything after the source of a `SourceFilters` -/
+def loopFilters {α : Type} (fs : List (List α → Except Err (List α))) (expr : String) : Option (List (List α → Except Err (List α))) :=
+  if expr == "self._filters" || expr == "self._pipes[1:]" then some fs else none
+
+/-- interpreter of a pipeline-running method body.  `vars`: the data variables and what they hold (the method's
+argument, later the running result); `input` is what the source delivers / the argument of `filter`.
+`x = self._pipes[0].read()` binds `x`; `for f in <filters>:` followed by `x = f.filter(x)` runs the filters on `x`,
+stopping at the first exception; `return x` ends.  Anything else: `none`. -/
+def runPipeProgram {α : Type} (fs : List (List α → Except Err (List α))) (input : List α) :
+    List PLine → List (String × Except Err (List α)) → Option (Except Err (List α))
+  | (0, "assign", x, "self._pipes[0].read()") :: rest, vars => runPipeProgram fs input rest ((x, .ok input) :: vars)
+  | (0, "for", f, l) :: (1, "assign", x, e) :: rest, vars =>
+    if e == f ++ ".filter(" ++ x ++ ")" then
+      match loopFilters fs l, vars.lookup x with
+      | some gs, some (.ok v) => runPipeProgram fs input rest ((x, chainF gs v) :: vars)
+      | some _, some (.error err) => runPipeProgram fs input rest ((x, .error err) :: vars)
+      | _, _ => none
+    else none
+  | [(0, "return", x, "")], vars => vars.lookup x
+  | _, _ => none
+
 end Coba.C09
